@@ -373,6 +373,18 @@ func checkHostCancel(c HostCancelCase) *pk.Failure {
 		if r.Outcome.Class != "terminated" {
 			return pk.Failf("hostcancel", c.Backend+" at-write:"+r.Outcome.Class, "%s: an endless program ended with %+v\n%s", id, r.Outcome, c.Text)
 		}
+		// the programs of this table sleep 4 s at most: a run that returns 3 s or more after the cancellation sat
+		// its sleep out (between 1 s and 3 s the machine was too busy to tell: not judged)
+		if strings.Contains(c.Text, "time.sleep(4.0)") {
+			switch {
+			case r.MsAfterCancel >= 3000:
+				return pk.Failf("hostcancel", c.Backend+" blocking-builtin-outlives-cancel", "%s: the run returned %d ms after the cancellation (the program was inside time.sleep(4.0))\n%s", id, r.MsAfterCancel, c.Text)
+			case r.MsAfterCancel >= 1000:
+				pk.Inconclusive()
+			default:
+				pk.Class("hostcancel:sleep-interrupted")
+			}
+		}
 		// between the cancelling write and the next poll a core executes at most one quantum
 		if r.WritesAfterCancel > 60*c.Cores {
 			return pk.Failf("hostcancel", c.Backend+" writes-after-cancel", "%s: %d writes after the cancellation\n%s", id, r.WritesAfterCancel, c.Text)
@@ -405,6 +417,10 @@ fn main() { spawn mid(1); spawn mid(2); }`, VMOnly: true, Cores: 5},
 fn main() { spawn relay(1); }`, VMOnly: true, Cores: 2, Endless: true},
 	{Name: "write-in-loop", Text: `fn main() { let i = 0; loop { i += 1; println("tick", i); } }`, Cores: 1, Endless: true},
 	{Name: "write-then-sleep", Text: `fn main() { println("a"); time.sleep(0.03); println("b"); }`, Cores: 1},
+	// a core that is inside a LONG blocking builtin when the host cancels: the builtin must not outlive the cancellation
+	{Name: "write-then-long-sleep", Text: `fn main() { println("a"); time.sleep(4.0); println("b"); }`, Cores: 1},
+	{Name: "thread-in-long-sleep", Text: `fn w(n: int) { time.sleep(4.0); println("w", n); }
+fn main() { spawn w(1); println("go"); time.sleep(4.0); println("main"); }`, VMOnly: true, Cores: 2},
 	{Name: "write-in-handler", Text: `fn main() { try { throw("x"); } catch e { println("h"); let i = 0; loop { i += 1; } } }`, Cores: 1, Endless: true},
 	{Name: "write-then-finish", Text: `fn main() { println("only"); }`, Cores: 1},
 }
